@@ -1,7 +1,7 @@
 (* props/C09.v -- merging never forgets a result.
    Statements: model/KeepSpec.v; proofs: proofs/KeepProofs.v. *)
 From Aqua Require Import Base Json Air Trace Handler Values Scalars Lens Exec RunExec ExecCases KeepSpec.
-From Aqua Require Import KeepProofs.
+From Aqua Require Import ExecStreams KeepProofs KeepHandler KeepExec.
 Open Scope N_scope.
 Open Scope list_scope.
 
@@ -31,6 +31,36 @@ Proof. exact (fun C ceqb H => merger_canon C ceqb H H). Qed.
 Theorem C09_state_keep_merger_ap : forall C, C09_merger_ap_stmt C.
 Proof. exact merger_ap. Qed.
 
+(* C09_consumed_partial, handler level (any representation of content ids, any traces): a run of the
+   TraceHandler API that follows the driver protocol of the call/par fragment (call := meet_call_start .
+   [meet_call_end s], par := meet_par_start . D . subgraph_end(Left) . D . subgraph_end(Right)), re-emits what
+   the call merger met, and whose windows are consumed (every par branch and the run end with both slider
+   windows exhausted: [windows_consumed], computable as [windows_consumed_b]) keeps every result of the
+   previous and of the current window in what it appends to the result trace.
+   Hypotheses: handler_ok (the slider windows lie inside their traces, trace lengths fit u32). *)
+Theorem C09_handler_consumed : forall C ceqb, C09_handler_consumed_stmt C ceqb.
+Proof. exact (fun C ceqb H => handler_consumed C ceqb H H). Qed.
+
+(* the executor drives the handler by that protocol: every state the call merger pops is re-emitted by
+   the corresponding meet_call_end with its content id (possibly upgraded from a pending request), or the
+   run fails (uncatchable error / panic).  For every stage-2 hook under the named hypothesis [streams_off]
+   (no stream / canon / map instruction is executed): call, seq, par, xor, match, mismatch, fail, null, never,
+   ap to scalars, new on scalars, folds over scalars; calls may write to streams. *)
+Theorem C09_exec_driven : C09_exec_driven_stmt.
+Proof. exact exec_is_driven. Qed.
+
+(* C09_consumed_partial, executor level: a run that returns new data is a driven run of the handler on
+   the two input traces; when the windows of that very run are consumed no result is forgotten.
+   Hypotheses: streams_off E, finish_keeps_knowledge finish (the farewell step only renumbers generations),
+   both input traces shorter than 2^32. *)
+Theorem C09_consumed_partial : C09_consumed_partial_stmt.
+Proof. exact consumed_partial. Qed.
+(* the two hypotheses hold for the stage-1 hook with the real compactification of stream generations *)
+Theorem C09_compactification_keeps : finish_keeps_knowledge finish_streams.
+Proof. exact finish_streams_keeps_knowledge. Qed.
+Theorem C09_stage1_hook : streams_off no_streams.
+Proof. exact no_streams_off. Qed.
+
 (* the executable oracles decide the statements they stand for *)
 Theorem C09_oracle_sound : forall p c o,
   keeps_both_b cid cid_eqb p c o = true <-> keeps_both cid cid_eqb p c o.
@@ -53,6 +83,30 @@ Example C09_oracle_detects_loss :
                                  [SPar 1 1; SCall (Executed (VRScalar "a")); SCall (Failed "b")] = true.
 Proof. vm_compute. split; reflexivity. Qed.
 
+(* a par whose two branches each hold a result only one side knows: windows consumed, both results kept *)
+Example C09_windows_consumed_nonvacuous :
+  let prev := [SPar 1 1; SCall (Executed (VRScalar "a")); SCall (RequestSentBy (SPeer "B"))] in
+  let cur := [SPar 1 1; SCall (RequestSentBy (SPeer "A")); SCall (Executed (VRScalar "b"))] in
+  let ds := [DPar [DCall (Some (Executed (VRScalar "a")))] [DCall (Some (Executed (VRScalar "b")))]] in
+  let h0 := handler_from string prev cur in
+  handler_ok string h0 /\ windows_consumed_b string String.eqb ds h0 = true /\
+  exists h', drive string String.eqb false ds h0 = Some (Ok h') /\
+             k_result string (h_keeper string h') = [SPar 1 1; SCall (Executed (VRScalar "a")); SCall (Executed (VRScalar "b"))].
+Proof.
+  cbv zeta. split; [split; (split; [| split]); vm_compute; intro; discriminate |].
+  split; [vm_compute; reflexivity |]. eexists. split; vm_compute; reflexivity.
+Qed.
+(* the hypothesis is needed: a run that leaves the left branch without visiting its state is still a
+   driven run, its windows are not consumed, and the result of the left branch is gone *)
+Example C09_windows_not_consumed_loses :
+  let prev := [SPar 1 1; SCall (Executed (VRScalar "a")); SCall (Executed (VRScalar "b"))] in
+  let ds := [DPar [] [DCall (Some (Executed (VRScalar "b")))]] in
+  let h0 := handler_from string prev [] in
+  windows_consumed_b string String.eqb ds h0 = false /\
+  exists h', drive string String.eqb false ds h0 = Some (Ok h') /\
+             keeps_both_b string String.eqb prev [] (k_result string (h_keeper string h')) = false.
+Proof. cbv zeta. split; [vm_compute; reflexivity |]. eexists. split; vm_compute; reflexivity. Qed.
+
 Print Assumptions C09_stores.
 Print Assumptions C09_state_keep_call.
 Print Assumptions C09_state_keep_canon.
@@ -62,3 +116,8 @@ Print Assumptions C09_state_keep_merger_ap.
 Print Assumptions C09_oracle_sound.
 Print Assumptions C09_union_max.
 Print Assumptions C09_stores_oracle_sound.
+Print Assumptions C09_handler_consumed.
+Print Assumptions C09_exec_driven.
+Print Assumptions C09_consumed_partial.
+Print Assumptions C09_compactification_keeps.
+Print Assumptions C09_stage1_hook.
